@@ -192,6 +192,10 @@ class CoreTask:
             for mode, slot in (("verdict", "search"), ("errors", "search_errors")):
                 try:
                     res[slot] = driver.rt_call("pyvc.rt_kw", {"cmd": "search_pairs", "mode": mode, "root": self.root, "drafts": [self.d], "limit": 3}, self.root, timeout=3000)
+                    if not res[slot].get("failures"):
+                        # keywords outside the vocabulary, keywords next to a reference
+                        ex = driver.rt_call("pyvc.rt_kw", {"cmd": "search_extras", "root": self.root, "drafts": [self.d], "limit": 3}, self.root, timeout=3000)
+                        res[slot] = {"failures": ex["failures"], "tried": res[slot].get("tried", 0) + ex["tried"]}
                 except Exception as e:      # noqa
                     res[slot] = {"error": str(e)[-300:], "failures": []}
         res["wall_s"] = round(time.time() - t0, 3)
